@@ -5,6 +5,7 @@
 #include "hist.hpp"
 #include "rec.hpp"
 
+#include <locale>
 #include <unistd.h>
 
 typedef VF_T T;
@@ -31,6 +32,24 @@ template <typename Chk> struct Probe
     bool operator()(Chk const& c) { rels->push_back(rel_error_T(c)); return true; }
 };
 
+// a global locale with a decimal comma (program configuration: both the library's file stream and the user's streams
+// pick it up); restored at the end of the case
+struct CommaPunct : std::numpunct<char>
+{
+    char do_decimal_point() const override { return ','; }
+};
+
+struct LocaleGuard
+{
+    std::locale old;
+    bool active;
+    explicit LocaleGuard(bool on) : old(std::locale()), active(on)
+    {
+        if (on) std::locale::global(std::locale(std::locale::classic(), new CommaPunct));
+    }
+    ~LocaleGuard() { if (active) std::locale::global(old); }
+};
+
 // the built-in callback, remembering its last decision (a user who is told to stop does not resume)
 template <typename Chk> struct Deciding
 {
@@ -51,6 +70,9 @@ template <int F> void flavour_case(Rng& rng, std::uint64_t idx)
     E gen;
     gen.discard(rng.below(5000));
     bool file_transport = rng.below(2);
+    bool comma_locale = rng.below(5) == 0;
+    LocaleGuard locale_guard(comma_locale);
+    if (comma_locale) count("cases_with_decimal_comma_global_locale");
     bool with_target = rng.below(3) == 0;
     char fname[128];
     std::snprintf(fname, sizeof fname, "c03_%d_%llu.chkpt", (int)getpid(), (unsigned long long)idx);
@@ -66,7 +88,7 @@ template <int F> void flavour_case(Rng& rng, std::uint64_t idx)
         if (!(target > T()) || !std::isfinite(target)) { with_target = false; target = T(); }
     }
     J info;
-    info.s("T", tname<T>::get()).s("engine", VF_ENG_NAME).s("flavour", Fl::name()).uv("calls", calls).b("file_transport", file_transport).f("target", target)
+    info.s("T", tname<T>::get()).s("engine", VF_ENG_NAME).s("flavour", Fl::name()).uv("calls", calls).b("file_transport", file_transport).b("decimal_comma_locale", comma_locale).f("target", target)
         .u("dims", cfg.dims).u("bins", cfg.bins).u("channels", cfg.channels).s("name1", cfg.name1).s("name2", cfg.name2.substr(0, 20));
     hep::callback_mode mode = file_transport ? hep::callback_mode::silent_and_write_chkpt : hep::callback_mode::silent;
     // uninterrupted run
